@@ -57,6 +57,15 @@ type Emb struct {
 	W int
 }
 
+// Emb2 embeds a struct that embeds structs itself, by pointer: the fields of Leaf and Inner are promoted through TWO
+// levels (X = Emb.Inner.X through two pointers, A = Emb.Leaf.A through a pointer and a value), the embedded fields
+// of Emb (Leaf, Inner) and its W through one. Every subset of the embedded names may be spelled: X, Emb.X, Inner.X,
+// Emb.Inner.X name the same slot.
+type Emb2 struct {
+	*Emb
+	V int
+}
+
 type hid struct {
 	Q int
 }
@@ -80,7 +89,7 @@ type EmbU struct {
 
 var _ = Inner{}.u
 
-var structNames = []string{"Leaf", "Inner", "Outer", "Emb", "hid", "EmbU", "Alt"}
+var structNames = []string{"Leaf", "Inner", "Outer", "Emb", "hid", "EmbU", "Alt", "Emb2"}
 var structTypes = map[string]reflect.Type{
 	"Leaf":  reflect.TypeOf(Leaf{}),
 	"Inner": reflect.TypeOf(Inner{}),
@@ -89,6 +98,7 @@ var structTypes = map[string]reflect.Type{
 	"hid":   reflect.TypeOf(hid{}),
 	"EmbU":  reflect.TypeOf(EmbU{}),
 	"Alt":   reflect.TypeOf(Alt{}),
+	"Emb2":  reflect.TypeOf(Emb2{}),
 }
 
 func structID(name string) int {
@@ -108,6 +118,7 @@ var syms = []string{
 	"I", "PI", "PP", "H", "N", "S", "MA", "MS", "MI", "MP", "MK",
 	"k", "j", "a", "b", "c", "nope", "PA",
 	"E", "PE", "ME", "Leaf", "Inner", "W", "hid", "Q",
+	"Emb", "V",
 }
 var symIdx = func() map[string]int {
 	m := map[string]int{}
